@@ -209,6 +209,19 @@ func (m ImportsMatcher) Match(file *ast.File, d data.Data) (_ data.Data, ok bool
 // the file match those of the patch (in the order Match would try them),
 // until try returns true.
 func (m ImportsMatcher) matchEach(file *ast.File, d data.Data, try func(data.Data) bool) bool {
+	// An import that the file does not have in any form settles it, before
+	// the ways of matching the others are gone through.
+	for _, im := range m.Imports {
+		if _, ok := im.Match(file, d); !ok {
+			return false
+		}
+	}
+
+	// The search is bounded by the number of steps it takes, not only by
+	// the number of complete matches it arrives at: with names that are
+	// bound more than once most of the work may lie in partial matches
+	// that come to nothing.
+	steps := 0
 	var rec func(i int, d data.Data, matched []matchedImport) bool
 	rec = func(i int, d data.Data, matched []matchedImport) bool {
 		if i == len(m.Imports) {
@@ -218,11 +231,20 @@ func (m ImportsMatcher) matchEach(file *ast.File, d data.Data, try func(data.Dat
 		}
 		im := m.Imports[i]
 		return im.matchEach(file, d, func(d data.Data) bool {
+			if steps == maxImportSteps {
+				return true // give up
+			}
+			steps++
 			return rec(i+1, d, append(matched, matchedImport{Path: im.Path, Key: im.key()}))
 		})
 	}
 	return rec(0, d, nil)
 }
+
+// maxImportSteps bounds the search for a way to match the imports of a
+// change against those of a file. Every import of the patch that is paired
+// with an import of the file is a step.
+const maxImportSteps = 4096
 
 type _importsKey string
 
